@@ -86,7 +86,12 @@ theorem memory_update_only_if_present :
 theorem get_for_ticket_effects :
     events getForTicket = [.storeCall "in.store.Read" ["ctx", "ticket.Key()"] true ["ErrNotFound"] {}, .exit [.nil, .wrap ["err"]] {}, .exit [.nil, .wrap ["ErrInvalid", "err"]] {},
       .exit [.expr "sess", .expr "err"] {}, .exit [.expr "sess", .nil] {}] ∧
-    getForTicket.contains (.call ["data", "err"] "encrypted.Decrypt" ["ticket.Crypter()"] []) = true ∧ getForTicket.contains (.call ["err"] "data.Validate" [] []) = true := by decide
+    getForTicket.contains (.call ["data", "err"] "encrypted.Decrypt" ["ticket.Crypter()"] []) = true ∧ getForTicket.contains (.call ["err"] "data.Validate" [] []) = true ∧
+    -- the verdict of `Data.Validate` (ended / inactive / no token, see GenTie.C09.data_validate_paths) is handed on UNTOUCHED: nothing between the call and the return
+    -- re-assigns or filters it, whatever the instance's own configuration says
+    getForTicket.dropWhile (· != .call ["err"] "data.Validate" [] []) =
+      [.call ["err"] "data.Validate" [] [], .ifBegin "err != nil", .ret [.expr "sess", .expr "err"], .ifEnd, .ret [.expr "sess", .nil]] ∧
+    (getForTicket.filter fun st => match st with | .assign "err" _ => true | _ => false) = [] := by decide
 
 /-- automatic refresh: read; nothing due → the session as read; refresh succeeded → the REFRESHED session; provider rejection / invalid session → no session;
     any other failure → fall back to the session as read (whose token `Session.AccessToken` still refuses when expired — C01/C11) -/
